@@ -2,7 +2,7 @@
 
 Real threads, baton passing: exactly one managed thread runs at any time; every other one is parked on its own real lock.
 Pre-emption points are sys.settrace `call` events of in-scope frames and `line` events inside them (scope = the sqlglot
-package under VERIF_SQLGLOT_ROOT and <frozen importlib*>); everything else is atomic, as every C-level operation is
+package under VERIF_SQLGLOT_ROOT); everything else - CPython's importlib included - is atomic, as every C-level operation is
 under a GIL. Who runs next is decided by one PRNG (rng modes) or by a recorded schedule (replay mode). Threads that
 would block on a lock held by another managed thread are parked in the scheduler (seam.SimLock / SimRLock).
 """
@@ -92,7 +92,8 @@ class Sim:
         self.p_pub = cfg.get("p_pub", 0.0) if self.mode in ("random", "cold") else 0.0
         self.watch = []
         if self.p_pub:
-            self.watch.append(sys.modules)
+            if cfg.get("pub_watch") == "all":
+                self.watch.append(sys.modules)  # a module object becomes visible before its body has run (importlib's module lock covers that)
             for mod, attr in (("sqlglot.dialects.dialect", "_Dialect"), ("sqlglot.generator", "_DISPATCH_CACHE"), ("sqlglot.optimizer", None), ("sqlglot.dialects", None)):
                 m = sys.modules.get(mod)
                 if m is None:
@@ -377,6 +378,7 @@ def _shared_schema(name):
     return s
 
 
+_DIALECTS = {}
 MICRO_KINDS = ["format_time", "json_path", "normalize_identifier", "to_table", "data_type", "tokenize", "dialect_settings", "column_names"]
 
 
@@ -387,11 +389,13 @@ def _micro(what, d, arg):
     from sqlglot.dialects.dialect import Dialect
 
     if what == "format_time":
-        r = Dialect.get_or_raise(d).format_time(exp.Literal.string(arg))
-        return r.sql() if r is not None else None
+        dl = _DIALECTS.get(d) or _DIALECTS.setdefault(d, Dialect.get_or_raise(d))  # harness-side memo (harness frames are atomic)
+        r = dl.format_time(exp.Literal.string(arg))
+        return r.this if r is not None else None
     if what == "json_path":
-        r = Dialect.get_or_raise(d).to_json_path(exp.Literal.string(arg))
-        return r.sql(dialect=d) if r is not None else None
+        dl = _DIALECTS.get(d) or _DIALECTS.setdefault(d, Dialect.get_or_raise(d))
+        r = dl.to_json_path(exp.Literal.string(arg))
+        return repr(r) if r is not None else None
     if what == "normalize_identifier":
         from sqlglot.optimizer.normalize_identifiers import normalize_identifiers
 
@@ -413,7 +417,7 @@ def _micro(what, d, arg):
 
 def _micro_arg(what, i):
     if what == "format_time":
-        return ["%Y-%m-%d", "%H:%M:%S", "%Y", "%d/%m/%y %H"][i % 4] if i < 4 else "%Y-%m-%d k" + str(i)
+        return ["%Y-%m-%d", "%H:%M:%S", "%Y", "%d/%m/%y %H"][i % 4] if i < 4 else "%d k" + str(i)
     if what == "json_path":
         return ["$.a.b", "$.a[0]", "$.x"][i % 3] if i < 3 else "$.k%d.v[%d]" % (i, i % 5)
     if what == "normalize_identifier":
@@ -470,7 +474,13 @@ def run_call(call):
                 return ["ok", fn(sqlglot.parse_one(call["sql"], read=call.get("read")), schema=hchild.SCHEMAS["xyz"], dialect=call.get("read")).sql(call.get("read"))]
             return ["ok", fn.__name__]
         if op == "micro":
-            return ["ok", _micro(call["what"], call.get("dialect"), _micro_arg(call["what"], call["i"]))]
+            # the same popular argument asked for `repeat` times in a row; every answer must be the same one
+            outs = []
+            for _ in range(call.get("repeat", 1)):
+                o = _micro(call["what"], call.get("dialect"), _micro_arg(call["what"], call["i"]))
+                if o not in outs:
+                    outs.append(o)
+            return ["ok", outs]
         if op == "bulk":
             # a long-running process in one call: a stream of DISTINCT inputs through one small entry point (fills bounded memos
             # up to and past their capacity while other threads keep asking for a few popular values)
@@ -538,7 +548,11 @@ def run(req):
     cfg = rec["config"]
     scripts = rec["scripts"]
     root = os.path.realpath(os.environ.get("VERIF_SQLGLOT_ROOT", "/repo"))
-    scope = (root + "/sqlglot/", "<frozen importlib")
+    # Pre-emption points are the lines of sqlglot's own files. CPython's import machinery is modelled as atomic between its lock
+    # operations (records written before this was decided carry no "importlib_steps" key and keep the old, wider scope so that
+    # they replay): `_load_unlocked` pops a finished module from sys.modules and re-inserts it, and a thread switched in between
+    # makes another thread's `sys.modules[parent]` raise KeyError - a window inside CPython, not a property of sqlglot.
+    scope = (root + "/sqlglot/", "<frozen importlib") if cfg.get("importlib_steps", True) else (root + "/sqlglot/",)
     if cfg.get("warm"):
         # steady-state population: every call of the run is executed once, sequentially and untraced, before the threads
         # start, so that the schedule explores races in warm code (per-call scratch state shared between threads)
